@@ -488,6 +488,30 @@ func runC05(c *cli.Ctx) error {
 		var wg sync.WaitGroup
 		start := make(chan struct{})
 		panicked := int32(0)
+		// a bystander: an independent native histogram with many buckets that is collected concurrently by two
+		// goroutines of its own during the whole run. Independent histograms must not influence each other.
+		bystander := prometheus.NewHistogram(prometheus.HistogramOpts{Name: "by", NativeHistogramBucketFactor: 1.1})
+		for k := 0; k < 300; k++ {
+			bystander.Observe(math.Ldexp(1+float64(k%7)/8, k%90-45))
+		}
+		byDone := make(chan struct{})
+		var byWg sync.WaitGroup
+		for g := 0; g < 2; g++ {
+			byWg.Add(1)
+			go func() {
+				defer byWg.Done()
+				for {
+					select {
+					case <-byDone:
+						return
+					default:
+					}
+					if _, p := scrape(bystander); p {
+						atomic.StoreInt32(&panicked, 1)
+					}
+				}
+			}()
+		}
 		for t := 0; t < nobs; t++ {
 			vals := make([]float64, 60)
 			exs := make([]bool, 60)
@@ -546,7 +570,9 @@ func runC05(c *cli.Ctx) error {
 		final := emit.Tup(emit.I(0), emit.F(0), emit.I(0), emit.I(0), emit.F(0), emit.L(nil), emit.L(nil), emit.L(nil))
 		if !stuck {
 			var hung bool
-			final, hung = scrapeWithWatchdog(h)
+			final, hung = scrapeWithWatchdog(h) // the bystander's collectors are still running
+			close(byDone)
+			byWg.Wait()
 			if hung {
 				stuck = true
 				flags |= 8
